@@ -66,6 +66,10 @@ def template(tid):
                                     mask=[[0, 0], [1, 0], [0, 0]])
         v = f.createVariable('E', 'd', ('z',))
         v[...] = [5]
+        # an integer masked variable with unmasked zeros (divisors)
+        v = f.createVariable('Z', 'i', ('t', 'x'), fill_value=-1)
+        v[...] = np.ma.masked_array([[0, 1], [2, 0], [3, 4]],
+                                    mask=[[0, 0], [0, 0], [1, 0]])
         f.history = 'h'
     elif tid == 'T3':
         f.createDimension('y', 3)
@@ -400,11 +404,20 @@ def _gen_step(rnd, sh, src, shadows, focus=None, strict=False):
                                for _ in range(m)]
         a['newdim'] = 'POINTS'
     elif act == 'apply':
-        nd = rnd.randint(1, min(2, len(dims)))
+        nd = rnd.randint(1, min(3, len(dims)))
         ds = rnd.sample(dims, nd)
         fs = []
+        # one reducer name for every chosen dimension (joint-axis shortcuts
+        # are wrong for masked data and for interleaved min/max)
+        same = rnd.choice(['mean', 'min', 'max', 'sum']) \
+            if nd >= 2 and rnd.random() < 0.4 else None
         for d in ds:
-            if rnd.random() < 0.65:
+            if same is not None and (nd < 3 or d != ds[1]):
+                fs.append({'d': d, 'kind': 'reducer', 'f': same})
+            elif same is not None:
+                fs.append({'d': d, 'kind': 'reducer',
+                           'f': {'min': 'max', 'max': 'min'}.get(same, same)})
+            elif rnd.random() < 0.65:
                 fs.append({'d': d, 'kind': 'reducer',
                            'f': rnd.choice(['sum', 'min', 'max', 'mean',
                                             'var', 'mean', 'sum'])})
